@@ -545,16 +545,20 @@ func (db *RockDB) ZIncrBy(ts int64, key []byte, delta float64, member []byte) (f
 	}
 
 	score = oldScore + delta
-
-	sk := zEncodeScoreKey(false, false, table, rk, member, score)
-	wb.Put(sk, []byte{})
-	wb.Put(ek, PutFloat64(score))
+	if v != nil && score == oldScore {
+		// nothing changes (the delete of the old score key below would
+		// remove the score key just written)
+		return score, nil
+	}
 
 	if v != nil {
 		// so as to update score, we must delete the old one
 		oldSk := zEncodeScoreKey(false, false, table, rk, member, oldScore)
 		wb.Delete(oldSk)
 	}
+	sk := zEncodeScoreKey(false, false, table, rk, member, score)
+	wb.Put(sk, []byte{})
+	wb.Put(ek, PutFloat64(score))
 
 	err = db.rockEng.Write(wb)
 	return score, err
